@@ -13,7 +13,9 @@
 (***************************************************************************)
 EXTENDS MintAPI, Json
 
-CONSTANTS MaxOut,     \* bound on blinded messages ever created
+CONSTANTS Limits,     \* set of limit configurations, each encoded as maxbal * 10000 + maxmint * 100 + maxmelt (0 = unset)
+          Mpp,        \* set of BOOLEAN: is NUT-15 enabled
+          MaxOut,     \* bound on blinded messages ever created
           MaxMq,      \* bound on mint quotes
           MaxLq,      \* bound on melt quotes
           MaxOps,     \* history length
@@ -124,27 +126,31 @@ Record(op) == hist' = Append(hist, op) /\ n' = n + 1 /\ done' = done
 \* the 4 locked to key K1 (P2PK) so that witness-carrying proofs take part in every flow
 FundAmts == <<8, 4, 1>>
 FundLocks == <<"none", "K1", "none">>
-FundedState(f) ==
-  LET S0 == InitState([k \in {"k0"} |-> [fee |-> f, active |-> TRUE]], [maxbal |-> 0, maxmint |-> 0, maxmelt |-> 0])
+FundedState(f, lim, mpp) ==
+  LET S0 == [InitState([k \in {"k0"} |-> [fee |-> f, active |-> TRUE]], lim) EXCEPT !.mpp = mpp]
       S1 == LnSettle(NewMintQuote(S0, "mq1", [amt |-> 13, lock |-> "none"]), "mq1")
       a == [q |-> "mq1", outs |-> [i \in 1..3 |-> OutFact(i, "k0", FundAmts[i], FundLocks[i])], ovf |-> FALSE, sig |-> "none", lnerr |-> FALSE]
   IN MintEffect(SyncMq(S1, "mq1", FALSE), a, << >>)
-FundedHist(f) ==
-  <<[op |-> "cfg", fee |-> f], [op |-> "mintquote", amt |-> 13, lock |-> "none"], [op |-> "settle", q |-> "mq1"],
+FundedHist(f, lim, mpp) ==
+  <<[op |-> "cfg", fee |-> f, limits |-> lim, mpp |-> mpp], [op |-> "mintquote", amt |-> 13, lock |-> "none"], [op |-> "settle", q |-> "mq1"],
     [op |-> "mint", q |-> "mq1", outs |-> [i \in 1..3 |-> OutSpec("active", FundAmts[i], FundLocks[i])], sig |-> "none"]>>
 
 Init ==
-  /\ \E f \in Pick(Fees) :
-       /\ S = FundedState(f)
-       /\ hist = FundedHist(f)
+  \* no Pick here: TLC computes the initial states once, the simulator then draws one per behaviour
+  /\ \E f \in Fees, lc \in Limits, mpp \in Mpp :
+       LET lim == [maxbal |-> lc \div 10000, maxmint |-> (lc \div 100) % 100, maxmelt |-> lc % 100] IN
+       /\ S = FundedState(f, lim, mpp)
+       /\ hist = FundedHist(f, lim, mpp)
   /\ nb = 3 /\ nmq = 1 /\ nlq = 0 /\ n = 0 /\ done = FALSE
 
 MintQuoteAct ==
   /\ On("mintquote") /\ nmq < MaxMq /\ Often(50)
   /\ \E amt \in Pick(Amts), lock \in Pick({"none", "none", "K1"}) :
-       /\ S' = NewMintQuote(S, Mq(nmq + 1), [amt |-> amt, lock |-> lock])
-       /\ nmq' = nmq + 1
-       /\ Record([op |-> "mintquote", amt |-> amt, lock |-> lock])
+       LET a == [amt |-> amt, lock |-> lock, unit |-> "sat", big |-> ""]
+           accepted == MintQuoteCauses(S, a, Balance(S)) = {}
+       IN /\ S' = IF accepted THEN NewMintQuote(S, Mq(nmq + 1), a) ELSE S
+          /\ nmq' = IF accepted THEN nmq + 1 ELSE nmq
+          /\ Record([op |-> "mintquote", amt |-> amt, lock |-> lock])
   /\ UNCHANGED <<nb, nlq>>
 
 SettleAct ==
@@ -200,11 +206,19 @@ SwapAct ==
      IN \E amts \in Pick(IF net >= 1 THEN AmountLists(net) ELSE {<<1>>}) :
         \E lock \in Pick({"none", "none", "none", "K1"}) :
         \E ksSpec \in Pick({"active", "active", "active"} \cup (DOMAIN S.ks \ {ActiveKs})) :
+        \E reuse \in Pick({FALSE, FALSE, FALSE, FALSE, FALSE, TRUE}) :
           /\ nb + Len(amts) <= MaxOut
-          /\ LET a == [ins |-> ins, outs |-> FreshFacts(amts, ksSpec, lock), ovf |-> FALSE]
+          /\ LET \* rarely: one of the outputs is a blinded message the mint has signed before (same amount, if there is one)
+                 same == {b \in Signed : Len(amts) > 0 /\ S.sig[b].amt = amts[1] /\ S.sig[b].ks = ActiveKs}
+                 useOld == reuse /\ same # {} /\ ksSpec = "active"
+                 old == CHOOSE b \in same : TRUE
+                 fresh == IF useOld THEN Tail(amts) ELSE amts
+                 facts == (IF useOld THEN <<ReuseFact(old)>> ELSE << >>) \o FreshFacts(fresh, ksSpec, lock)
+                 specs == (IF useOld THEN <<ReuseSpec(old)>> ELSE << >>) \o FreshSpecs(fresh, ksSpec, lock)
+                 a == [ins |-> ins, outs |-> facts, ovf |-> FALSE]
              IN /\ S' = IF SwapCauses(S, a) = {} THEN SwapEffect(S, a, << >>) ELSE S
-                /\ nb' = nb + Len(amts)
-                /\ Record([op |-> "swap", ins |-> InSpecs(ch), outs |-> FreshSpecs(amts, ksSpec, lock)])
+                /\ nb' = nb + Len(fresh)
+                /\ Record([op |-> "swap", ins |-> InSpecs(ch), outs |-> specs])
   /\ UNCHANGED <<nmq, nlq>>
 
 Reserve(amt) == (amt + 99) \div 100
@@ -216,20 +230,35 @@ Charge(Sx, q, how) ==
   THEN [Sx EXCEPT !.lnout = @ + (Sx.lq[q].amt + Sx.lq[q].reserve) * 1000, !.lq[q].truth = "succeeded"]
   ELSE Sx
 
+MppMsats == {1500, 2999, 4001, 8000}
 MeltQuoteAct ==
   /\ On("meltquote") /\ nlq < MaxLq /\ Often(50)
-  /\ \E kind \in Pick({"ext", "ext", "int"}) :
+  /\ \E kind \in Pick({"ext", "ext", "int"} \cup (IF S.mpp THEN {"mpp", "mpp", "mppint"} ELSE IF Often(10) THEN {"mpp"} ELSE {})) :
        \/ /\ kind = "ext"
           /\ \E amt \in Pick(Amts) :
-               /\ S' = NewMeltQuote(S, Lq(nlq + 1), [kind |-> "ext", target |-> "", msat |-> 0],
-                                    [amt |-> amt, reserve |-> Reserve(amt)])
-               /\ Record([op |-> "meltquote", kind |-> "ext", amt |-> amt])
+               LET a == [kind |-> "ext", target |-> "", msat |-> 0, invmsat |-> amt * 1000, amt |-> amt, unit |-> "sat"]
+                   ok == MeltQuoteCauses(S, a) = {}
+               IN /\ S' = IF ok THEN NewMeltQuote(S, Lq(nlq + 1), a, [amt |-> amt, reserve |-> Reserve(amt)]) ELSE S
+                  /\ nlq' = IF ok THEN nlq + 1 ELSE nlq
+                  /\ Record([op |-> "meltquote", kind |-> "ext", amt |-> amt])
        \/ /\ kind = "int"
           /\ \E t \in Pick({q \in DOMAIN S.mq : ~\E x \in DOMAIN S.lq : S.lq[x].target = q}) :
-               /\ S' = NewMeltQuote(S, Lq(nlq + 1), [kind |-> "int", target |-> t, msat |-> 0],
-                                    [amt |-> S.mq[t].amt, reserve |-> 0])
-               /\ Record([op |-> "meltquote", kind |-> "int", q |-> t])
-  /\ nlq' = nlq + 1
+               LET a == [kind |-> "int", target |-> t, msat |-> 0, invmsat |-> S.mq[t].amt * 1000, amt |-> S.mq[t].amt, unit |-> "sat"]
+                   ok == MeltQuoteCauses(S, a) = {}
+               IN /\ S' = IF ok THEN NewMeltQuote(S, Lq(nlq + 1), a, [amt |-> S.mq[t].amt, reserve |-> 0]) ELSE S
+                  /\ nlq' = IF ok THEN nlq + 1 ELSE nlq
+                  /\ Record([op |-> "meltquote", kind |-> "int", q |-> t])
+       \/ /\ kind = "mpp"
+          /\ \E ms \in Pick(MppMsats) :
+               LET a == [kind |-> "mpp", target |-> "", msat |-> ms, invmsat |-> ms * 2 + 1000, amt |-> ms \div 1000, unit |-> "sat"]
+                   ok == MeltQuoteCauses(S, a) = {}
+               IN /\ S' = IF ok THEN NewMeltQuote(S, Lq(nlq + 1), a, [amt |-> ms \div 1000, reserve |-> Reserve(ms \div 1000)]) ELSE S
+                  /\ nlq' = IF ok THEN nlq + 1 ELSE nlq
+                  /\ Record([op |-> "meltquote", kind |-> "mpp", msat |-> ms])
+       \/ /\ kind = "mppint"
+          /\ \E t \in Pick(DOMAIN S.mq) :
+               /\ S' = S /\ nlq' = nlq
+               /\ Record([op |-> "meltquote", kind |-> "mppint", q |-> t, msat |-> 1000])
   /\ UNCHANGED <<nb, nmq>>
 
 PayAnswers == {"success", "pending", "failed", "error"}
